@@ -376,6 +376,9 @@ class TaggedSeries(object):
     (metric, rawtags) = path[0:-1].split('{', 2)
     if not metric:
       raise Exception('Cannot parse path %s, no metric found' % path)
+    if ';' in metric:
+      # would be read back as carbon-style tags once formatted
+      raise Exception('Cannot parse path %s, metric name contains ";"' % path)
 
     tags = {}
 
@@ -403,6 +406,9 @@ class TaggedSeries(object):
     metric = segments[0]
     if not metric:
       raise Exception('Cannot parse path %s, no metric found' % path)
+    if metric[-2:] == '"}' and '{' in metric:
+      # would be read back as an openmetrics path once formatted
+      raise Exception('Cannot parse path %s, metric name mixes openmetrics and carbon tags' % path)
 
     tags = {}
 
